@@ -32,11 +32,12 @@ Rows(r) == [i \in DOMAIN r.rows |-> <<r.rows[i][1], r.rows[i][2]>>]
 RunVerdict(r) ==
     IF r.exit \notin {0, 1} THEN "abnormal exit (panic or signal)"
     ELSE
-    LET otk == IF r.has_order THEN Tokenize(r.order_chars) ELSE [ok |-> TRUE, toks |-> <<>>]
+    LET otk == IF r.has_order THEN Tokenize(r.order_chars) ELSE [ok |-> TRUE, toks |-> <<>>, loose |-> FALSE]
         ftk == Tokenize(r.formula_chars)
         p   == IF ftk.ok THEN Parse(ftk.toks) ELSE [ok |-> FALSE, t |-> <<>>]
         shouldFail == ~otk.ok \/ ~p.ok
-    IN IF shouldFail # (r.exit = 1) THEN (IF shouldFail THEN "exit 0 although the input is not a formula" ELSE "error exit on a valid input")
+    IN IF (otk.loose \/ ftk.loose) /\ r.exit = 1 THEN (IF r.stdout_empty THEN "" ELSE "output printed before an error exit")
+       ELSE IF shouldFail # (r.exit = 1) THEN (IF shouldFail THEN "exit 0 although the input is not a formula" ELSE "error exit on a valid input")
        ELSE IF shouldFail THEN (IF r.stdout_empty THEN "" ELSE "output printed before an error exit")
        ELSE
        \* The variable order is an OBSERVABLE of the tool (what -r exports; r.names is that list completed to a
